@@ -965,7 +965,7 @@ impl Prop for C18 {
         ]
     }
     fn cases(&self, tier: Tier) -> u32 {
-        tier.pick(300, 6000)
+        tier.pick(450, 6000)
     }
     fn strategy(&self, tier: Tier) -> BoxedStrategy<Case> {
         let max_ops = tier.pick(16usize, 28usize);
